@@ -64,6 +64,7 @@ type framerChangedCaller struct{}
 
 func (caller framerChangedCaller) Call(s *slip.Scope, args slip.List, depth int) slip.Object {
 	self := s.Get("self").(*flavors.Instance)
+	slip.CheckSendArgCount(s, depth, self, ":changed", args, 2, 2)
 	c := self.Any.(*client)
 	var (
 		top  int
